@@ -25,7 +25,7 @@ CONFIG = {
              '(role, position, operation, mode, mutation, expected re-execution?) cells observed'),
     'exhaustive_layer': 'the factorial core (704 cells incl. 1 ns / 999 ns timestamp moves and tail-byte changes of 5 kB files: the readback role additionally x {producer METADATA|HASH-compared} x {fresh|preserved output timestamp}) (every cell enumerated in every run, split over shards)',
     'gates': ['cells', 'cell_expected_rerun', 'cell_expected_cached', 'blind_cells', 'random_mutation_rebuilds',
-              'hash_touch_cells', 'metadata_content_only_cells'],
+              'hash_touch_cells', 'metadata_content_only_cells', 'shape_cells', 'shape_cells_expected_rerun'],
 }
 
 MUTS = ['none', 'touch', 'c_same_new', 'c_size_new', 'c_same_keep', 'c_size_keep', 'tail_keep', 'tail_new',
@@ -177,6 +177,69 @@ def run_cell(sh, cell):
                        'model_must_run': n_must})
 
 
+def shape_cells():
+    """content pairs aimed at how a content hash is computed (chunked reads, buffers, padding,
+    order of chunks), not at what the file means: (name, old, new, keep_stamp)"""
+    out = []
+    out.append(('nul_append', b'abc', b'abc\x00', False))
+    out.append(('nul_append_keep', b'abc', b'abc\x00', True))
+    out.append(('nul_strip', b'abc\x00\x00', b'abc', False))
+    out.append(('empty_to_nul', b'', b'\x00', False))
+    out.append(('nul_to_empty', b'\x00', b'', True))
+    out.append(('empty_to_data', b'', b'x', False))
+    out.append(('data_to_empty', b'x', b'', False))
+    out.append(('zeros_grow', b'\x00' * 100, b'\x00' * 101, True))
+    for B in (1024, 4096, 8192, 65536, 131072):
+        rec = bytes(range(16)) * 2                      # 32-byte records: the period divides every chunk size
+        n = (B // 32) * 2 + 5
+        out.append(('periodic_grow_%d' % B, rec * n, rec * (n + 3), True))
+        out.append(('periodic_shrink_%d' % B, rec * (n + 7), rec * n, False))
+        out.append(('zeros_cross_%d' % B, b'\x00' * (B - 1), b'\x00' * (B + 1), True))
+        body = bytes((i * 7 + 3) % 251 for i in range(2 * B + 10))
+        for off in (0, B - 1, B, B + 1, 2 * B + 9):
+            ch = bytearray(body)
+            ch[off] ^= 0x55
+            out.append(('byte_%d_of_%d' % (off, B), body, bytes(ch), True))
+        out.append(('swap_chunks_%d' % B, body[:2 * B], body[B:2 * B] + body[:B], True))
+        out.append(('exact_chunk_grow_%d' % B, body[:B], body[:B] + body[:1], True))
+    return out
+
+
+def run_shape_cell(sh, shape, role, op, mode):
+    name, old, new, keep = shape
+    program, target = cell_program(role, 'top', op, mode)
+    with Scratch('m') as sc:
+        w = World(sc)
+        w.ext_write('in', old)
+        w.ext_write('src', b'source-0')
+        sr = w.build(program, program['roots'][0], {}, label=0)
+        if sr.divs or not sr.committed:
+            sh.violation('c13_shape_first_build_diverged', {'shape': name, 'divs': [dict(d) for d in sr.divs][:2]},
+                         case_of(w, program))
+            return
+        if role == 'integrity':
+            e = w.model.disk.get(w.ap(target))
+            cur = e[1]
+            # the generated output is tampered with in the same shape: NULs appended / last byte dropped
+            new = cur + b'\x00' * (1 + len(new) % 3) if len(new) >= len(old) else cur[:-1]
+        if not w.ext_rewrite(target, new, keep):
+            sh.count('cell_mutation_not_applicable')
+            return
+        tagsig = 'shape|%s|%s|%s|%s' % (role, op, mode, name.rstrip('0123456789_'))
+        sr2 = w.build(program, program['roots'][0], {}, label=0)
+        sh.evaluations += 1
+        sh.count('shape_cells')
+        account_build(sh, sr2)
+        if sr2.stats.get('must_run', 0) > 0:
+            sh.count('shape_cells_expected_rerun')
+        sh.nt(('shape', role, op, mode, name, sr2.stats.get('must_run', 0) > 0))
+        if judge(sh, w, program, sr2, False, tagsig) or sr2.divs:
+            return
+        sr3 = w.build(program, program['roots'][0], {}, label=0)
+        sh.evaluations += 1
+        judge(sh, w, program, sr3, False, tagsig + '|unchanged-after')
+
+
 def observed_files(mb, w):
     out = {}
 
@@ -198,6 +261,11 @@ def run_shard(sh):
     mine = cells[sh.idx::sh.n]
     for cell in mine:
         run_cell(sh, cell)
+    # ---------- content shapes aimed at the hashing itself (every shape in every run, split over shards)
+    shapes = [(sp, role, op, mode) for sp in shape_cells() for role in ('input', 'integrity')
+              for op in (('read_binary', 'declare_read') if role == 'input' else ('bfcmp',)) for mode in ('H', 'M')]
+    for sp, role, op, mode in shapes[sh.idx::sh.n]:
+        run_shape_cell(sh, sp, role, op, mode)
     sh.exhaustive = True
     # ---------- random programs: every observed/built file x every mutation
     while sh.time_left() > 0:
